@@ -12,6 +12,7 @@ PARTIAL = [
     "A2.3: the literal transcription (basisFunsDersA23, compared with helpers.basis_function_ders by the C02 stream bders23) is proved equal to the specification table in C02; rows-sum-to-zero and row 0 = A2.2 are proved for that table",
     "A2.4 (basis_function_one) = Cox-de Boor is proved on the domain except where it is false as worded: the last function at the last knot returns 1 (half-open Cox-de Boor: 0; proved equal to the A2.2 entry of the last span for end-clamped vectors), and the first function at U[0] returns 1 also outside the domain of an unclamped vector / for start multiplicity > p+1 (hypotheses U p <= u, U 0 < U (p+1))",
     "A2.5 (basis_function_ders_one, literal model) = column of the A2.3 specification table is proved for order <= degree on half-open spans; at the last knot A2.5 returns zeros (no boundary special case, unlike A2.4) - covered only by the closed form",
+    "support of a Cox-de Boor function without a span index (coxDeBoor_support, _zero_set, _support_by_multiplicity): for sorted knots, every degree / index and EVERY number u, N_{i,p}(u) >= 0 and N_{i,p}(u) != 0 iff U_i <= u < U_{i+p+1} and (U_i < u or U_{i+p} <= u) - proved in full; A2.5 at the last knot as coded (basisFunDersOne_last_knot: order+1 zeros for every accepted index and every order, also order > degree - the guard returns first) is proved, and that it is NOT the left-limit value / derivatives there (basisFunDersOne_last_knot_differs: A2.5 gives 0, A2.4 gives 1, row 0 of A2.3 on the last span gives 1; witness with derivatives 0,0,0 against 1,2,2); the exact oracle judges A2.5 only for u below the domain end, at the last knot only the correspondence stream bdersone (model = code) covers it - recorded observation, supersedes the last clause of the A2.5 item above",
 ]
 PARTIAL.append("F-03b (open, recorded): for a knot vector whose END knot is repeated more than p+1 times, A2.4 (basis_function_one) at u = the last knot returns 1 for the LAST function (the special case of The NURBS Book, `i == m-p-1 and u == U[m]`), which has empty support there, and 0 for the last function with non-empty support, whose Cox-de Boor left limit (= the A2.2 entry on the span the repaired search finds) is 1; the A2.4 sentence above ('the last function at the last knot returns 1 ... proved equal to the A2.2 entry of the last span for end-clamped vectors') is about end-clamped vectors with EXACTLY p+1 equal end knots (KnotsOk: non-empty last span), where the last function is the one with the value 1; end multiplicity > p+1 is outside the model, judged by the exact oracle of the stream empty-last-span (kind span-end, every function index) and classified as F-03b; unclamped vectors with U_{n-1} = U_n (end-of-domain multiplicity <= p) are judged too and A2.4 is right there")
 PARTIAL.append("knot vectors with an empty last domain span are outside the model (theorems assume KnotsOk); the repaired step-back of the span searches (F-01b) is checked by the exact oracle only (stream empty-last-span: span-lin / span-bin with a model line strictly inside the domain, kind span-end without one at u = U_n; the driver ops that search a span / evaluate answer ERR when the span the model finds is empty)")
